@@ -16,4 +16,5 @@ for s in $(seq $from $((to-1))); do
   if [ "$rc" != 0 ]; then bad=$((bad+1)); echo "MIRI seed $s rc=$rc: $(grep -E 'error: Undefined Behavior|error:' $out/seed-$s.log | head -2 | tr '\n' ' ')"; fi
 done
 echo "miri: seeds $from..$to, $bad with errors"
+echo "{\"tool\": \"cargo +nightly miri (tree borrows, leaks ignored)\", \"histories\": $((to-from)), \"with_errors\": $bad}" > $out/summary.json
 [ $bad = 0 ]
